@@ -357,6 +357,25 @@ def scale_free_cleanup(ctx, rule):
         ok = len(live) == 1 and is_arr(got) and got is not given and not np.shares_memory(got, given) and equal(np.asarray(got, dtype=object), val, deep=False)
         n += 1
         ctx.ob(rule, BOX + '::Box.%s.setter' % pname, 'the %s setter stores the values, not the array it was given (no memory shared with the caller\'s array)' % pname, bool(ok), node=sfn, key='setter owns ' + pname)
+    # ... and the getters hand out values, not windows into the stored arrays: a caller who normalises the vector it read (u = box.avect; u /= norm(u)) must not
+    # change the box behind the setter's back (the reciprocal-vector cache would go stale), and a vector read earlier must not change when the box is set again
+    for gname in ('vects', 'origin', 'avect', 'bvect', 'cvect'):
+        try:
+            gfn = ctx.fn(BOX, 'Box.' + gname)
+        except Exception:
+            continue
+        stored_v = np.array(base, dtype=object)
+        stored_o = np.array([R(3, 2), R(-9, 4), R(3, 4)], dtype=object)
+        obj = SymObj(cls, {'_Box__vects': stored_v, '_Box__origin': stored_o, '_Box__reciprocal_vects': None}, 'self')
+        ev = SymEval(module_aliases(ctx.mod(BOX)))
+        try:
+            live = [q for q in ev.run_fn(gfn, [obj], {}) if q.done == 'return']
+        except (Opaque, WouldRaise) as e:
+            raise AnalysisError('Box.%s getter: %s' % (gname, e))
+        got = live[0].ret if len(live) == 1 else None
+        ok = is_arr(got) and not np.shares_memory(got, stored_v) and not np.shares_memory(got, stored_o)
+        n += 1
+        ctx.ob(rule, BOX + '::Box.%s' % gname, 'the %s getter hands out an array of its own (no memory shared with the stored vectors or origin)' % gname, bool(ok), node=gfn, key='getter owns ' + gname)
     return n
 
 
